@@ -23,11 +23,11 @@ def run(tier, seed, replay=None):
         explanation="Theorems (Props/C13) over the event-level stream calculus Calc/Stream.lean. Part A, every stream expression whose sources complete inline "
                     "(all lengths, values, scripted functions, error positions, stop before start or not): inline_run / elements_eq_spec (the consumer receives exactly "
                     "SExpr.den — range = [lo,hi), transform = map, filter = List.filter, stop_immediately, take_until, type_erase …), fold_eq_spec (reduce_stream's result is "
-                    "the fold, or the stream's / cleanup's error), reducer_throw_spec, den_stop_prefix / stop_ends_early_no_dup_no_invent_partial (a stop request only "
-                    "shortens the sequence; PARTIAL: stop before start). Part B, EVERY expression, script, consumer and sequence of legal external events: "
+                    "the fold, or the stream's / cleanup's error), reducer_throw_spec, den_stop_prefix / stop_before_start_prefix_inline (inline special case: stop before start only "
+                    "shortens the sequence). Part B, EVERY expression, script, consumer and sequence of legal external events: "
                     "cleanup_at_most_once, cleanup_after_outstanding_next, result_after_cleanup / cleanup_once_iff_next_started (from the protocol contract deliver_ok and "
-                    "the root invariant RInv), stop_ends_early_no_dup_no_invent (stop at ANY position: delivered elements are a prefix of the specified sequence; "
-                    "expressions without take_until; from deliver_phi / deliver_need), stop_immediately_abandons_then_awaits. Part C: take_until_receivers_destruct_their_own_op, "
+                    "the root invariant RInv), stop_ends_early_no_dup_no_invent (stop / take_until trigger at ANY position: delivered elements are a prefix of SExpr.free, the sequence "
+                    "without stop; every expression incl. take_until; from deliver_all = protocol + value + fuel contracts), stop_immediately_abandons_then_awaits. Part C: take_until_receivers_destruct_their_own_op, "
                     "take_until_cleanup_ops_balanced(_pending) — sourceOp_ / triggerOp_ each constructed once and destructed once (regression of DESIGN §8 #6). "
                     "Tie: full-trace equality of the real library and the calculus on generated cases (stop at a random position of every script); independent "
                     "monitors in the harness check cleanup-once, cleanup-after-outstanding-next, result-after-cleanup and the lifetime of every tracked next/cleanup "
